@@ -168,8 +168,11 @@ pub enum Act {
     Silence,
     /// resume sending
     Resume,
-    /// request block (index, begin, len) — same as Send(Request) but tracked as a leecher request
+    /// request block (index, begin, len)
     Request(u32, u32, u32),
+    /// honest leecher: request up to `0` valid blocks of pieces the client has advertised so far
+    /// (nothing when the client is choking us or has advertised nothing)
+    RequestOwned(u32),
 }
 
 #[derive(Clone, Debug, Serialize, Deserialize, PartialEq)]
@@ -202,6 +205,10 @@ pub struct PeerPlan {
     pub script: Vec<Step>,
     /// essential peers are never touched by fault-dropping shrink steps of the honest profile
     pub essential: bool,
+    /// honest choke discipline: a scripted Choke while already choking (or Unchoke while not
+    /// choking) is skipped instead of sent redundantly
+    #[serde(default)]
+    pub strict_choke: bool,
 }
 
 #[derive(Clone, Debug, Serialize, Deserialize, PartialEq)]
